@@ -149,6 +149,41 @@ func (c ColumnType) Conflicts(b ColumnType) bool {
 	return true
 }
 
+// splitElems splits "T1, T2(a, b), T3" into its top-level elements,
+// ignoring commas inside parentheses and quoted strings.
+func (c ColumnType) splitElems() []ColumnType {
+	var (
+		elems []ColumnType
+		depth int
+		quote bool
+		start int
+		v     = string(c)
+	)
+	for i := 0; i < len(v); i++ {
+		switch ch := v[i]; {
+		case quote:
+			if ch == '\\' {
+				i++ // skip escaped character
+			} else if ch == '\'' {
+				quote = false
+			}
+		case ch == '\'':
+			quote = true
+		case ch == '(':
+			depth++
+		case ch == ')':
+			depth--
+		case ch == ',' && depth == 0:
+			elems = append(elems, ColumnType(strings.TrimSpace(v[start:i])))
+			start = i + 1
+		}
+	}
+	if rest := strings.TrimSpace(v[start:]); rest != "" || len(elems) > 0 {
+		elems = append(elems, ColumnType(rest))
+	}
+	return elems
+}
+
 func (c ColumnType) normalizeCommas() ColumnType {
 	// Should we check for escaped commas in enums here?
 	const sep = ","
